@@ -60,7 +60,7 @@ def run(ctx):
         nconc = {'asan': 2500, 'rel': 6000}
     else:
         seq = [('asan', 4, 1500), ('rel', 4, 5000)]
-        nconc = {'asan': 100, 'rel': 250}
+        nconc = {'asan': 80, 'rel': 200}
     jobs = []
     for fl, n, h in seq:
         for k in range(n):
